@@ -46,7 +46,24 @@ func runSolver(ctx context.Context, sd solverDef, file string, timeoutS int) Sol
 	cmd.Stderr = &out
 	_ = cmd.Run()
 	res := SolveResult{Solver: sd.name, Seconds: time.Since(start).Seconds(), Output: out.String()}
-	first := strings.TrimSpace(strings.SplitN(out.String(), "\n", 2)[0])
+	first := ""
+	hadErr := false
+	for _, l := range strings.Split(out.String(), "\n") {
+		l = strings.TrimSpace(l)
+		if l == "" {
+			continue
+		}
+		if strings.HasPrefix(l, "(error") && !strings.Contains(l, "model is not available") && !strings.Contains(l, "cannot get value") {
+			hadErr = true
+			continue
+		}
+		if first == "" && !strings.HasPrefix(l, "(error") {
+			first = l
+		}
+	}
+	if hadErr {
+		first = "error"
+	}
 	switch first {
 	case "unsat", "sat", "unknown", "timeout":
 		res.Status = first
